@@ -303,6 +303,25 @@ ADDENDA9 = {
     "C20": ("; rule-of-own-set in the rule lookup", " Also decides that the rule lookup compares the opcode set as well as the index inside it."),
 }
 
+# Additions after the eleventh seeding round
+ADDENDA10 = {
+    "C03": ("; finite evaluation of the x86 memory-writing helpers for every width a caller asks for; width rule for index products in generated C", " Also decides that a read-modify-write of an executor field has the width the caller asked for, and that the generated C forms index times increment in 64 bits."),
+    "C04": ("; width rule for index products in generated C (shared with C03)", " Also decides that the generated C computes the position of the resampling loads in 64 bits, as emulation does."),
+    "C05": ("; control-dependence rule for assertion failures on constant values; label-cursor reset between emission passes; step-count rules for rotation and shift searches", " Also decides that no assertion on the compile path is controlled by a program constant's value, that a back end that emits twice resets its label cursor, and that loops searching rotations or powers of two count their steps."),
+    "C06": ("; case distinction of the 2-D row step for pointers kept in memory", " Also decides that the row step of 2-D programs tells pointers kept in the executor from pointers kept in a register (the inner loop advances them in different places)."),
+    "C07": ("; finite evaluation of the x86 constant loaders for 8-byte constants whose low half is a special-cased 32-bit pattern", " Also decides that an 8-byte constant is never loaded through a 32-bit special case without its upper half."),
+    "C11": ("; must-definition of destination and scratch registers in two-operand (SSE/MMX) rules, with the shift-out idiom modelled (shared with C17); provenance rule for the compiler's flag word", " Also decides that an SSE/MMX rule reads no register nobody wrote, and that compiler->target_flags is the request's flag word."),
+    "C12": ("; line-termination rule for directly written listing fragments", " Also decides that no directly written listing fragment can swallow the first instruction of the deferred instruction text."),
+    "C13": ("; name-blindness of the constructors the bytecode reader calls with placeholder names", " Also decides that re-creating several variables under one placeholder name cannot lose any."),
+    "C14": ("; errno-cleared rule for judged conversions; step-count rules for search loops (shared with C05)", " Also decides that a number's range test does not depend on what was parsed before, and that no declared size or offset can make the compile spin."),
+    "C15": ("; exact-spelling rule for shared literal slots; signed-int rule for constants narrower than 8 bytes; errno-cleared rule (shared with C14)", " Also decides that only the parser's own literal spelling shares a slot by value, and that a narrow constant from text is the int the API makes of it."),
+    "C16": ("; ownership rule for variable names in the compiler's shallow copy", " Also decides that the compiler frees only the names of its own temporaries."),
+    "C17": ("; must-definition of destination and scratch registers in two-operand (SSE/MMX) rules", " Also decides that no SSE/MMX rule computes with what a register held before the rule ran."),
+    "C18": ("; full-width rule for the last write of an AVX constant", " Also decides that an AVX constant loader never ends on a VEX.128 write (upper lanes zero)."),
+    "C19": ("; bit-set semantics of the XCR0 test itself", " Also decides that check_xcr0_ymm is true only when both the SSE and the YMM state bit are set."),
+    "C20": ("; must-pass-through of the emulator entry point on the emulation-requested exit", " Also decides that under ORC_CODE=emulate the entry point is the emulator (which calls the application's emulateN), not a backup function."),
+}
+
 
 def main():
     props = [json.loads(l) for l in open(os.path.join(VERIF, "properties.jsonl"))]
@@ -338,6 +357,9 @@ def main():
                 tech, text = tech + a[0], text + a[1]
             if pid in ADDENDA9:
                 a = ADDENDA9[pid]
+                tech, text = tech + a[0], text + a[1]
+            if pid in ADDENDA10:
+                a = ADDENDA10[pid]
                 tech, text = tech + a[0], text + a[1]
             checks.append({
                 "property_id": pid,
